@@ -329,6 +329,9 @@ func c33Commands(s *c33State) []string {
 	for _, rs := range c33RootSets {
 		cmds = append(cmds, "sync:"+strings.Join(rs, ","))
 	}
+	// the same sync asking for a branch no repository has, missing branches tolerated: nothing
+	// can be resolved, and preview and -f must still agree (not expanded into successor states)
+	cmds = append(cmds, "syncb:ra", "syncb:ra,rb")
 	for _, sel := range c33Selectors(s) {
 		cmds = append(cmds, "remove:"+sel)
 	}
@@ -417,12 +420,15 @@ func c33Args(dir, idx, cmd string) []string {
 	kind = strings.TrimSuffix(kind, "-f")
 	var args []string
 	switch kind {
-	case "sync":
+	case "sync", "syncb":
 		// alternate between the two spellings of the sync command
 		if strings.Contains(arg, ",") {
 			args = append(args, "sync")
 		}
 		args = append(args, "-index", idx, "-disable_ctags", "-shard_limit", "1000000")
+		if kind == "syncb" {
+			args = append(args, "-branches", "no-such-branch", "-allow_missing_branches")
+		}
 		if force {
 			args = append(args, "-f")
 		}
@@ -869,7 +875,7 @@ func c33EvalStates(job *c33Job, tag string) []*c33StateResult {
 				continue
 			}
 			res.Transitions++
-			if job.Expand {
+			if job.Expand && !strings.HasPrefix(cmd, "syncb:") {
 				n := s.clone()
 				n.Index = after
 				n.Ops = append(n.Ops, c33Force(cmd))
